@@ -40,6 +40,8 @@ MODES = {
     "caught_exit0_then_exception": ("try:\n    sys.exit(0)\nexcept SystemExit:\n    pass\nraise ValueError('boom')", False),
     "caught_exit_none_then_interrupt": ("try:\n    sys.exit()\nexcept SystemExit:\n    pass\nraise KeyboardInterrupt()", False),
     "caught_exit0_then_exit3": ("try:\n    sys.exit(0)\nexcept SystemExit:\n    pass\nsys.exit(3)", False),
+    # an exception hook installed by the application before pysnark, which itself fails
+    "exception_with_failing_custom_excepthook": ("raise ValueError('boom')", False),
     "autoprove_off": ("import pysnark.runtime as _r\n_r.autoprove = False", None),
 }
 BACKENDS = {
@@ -62,15 +64,20 @@ IMPORTS = "from pysnark.runtime import PrivVal, PubVal\nfrom pysnark.branching i
 CONTROL_IMPORTS = "PrivVal = PubVal = lambda v: v\nif_then_else = lambda c, a, b: a\nclass _V(int):\n    def val(self): return self\n"
 
 
+PRE_IMPORT = {
+    "exception_with_failing_custom_excepthook": "def _apphook(tp, ex, tb):\n    raise RuntimeError('application hook failed')\nsys.excepthook = _apphook\n",
+}
+
+
 def make_script(stmts, k, mode, control=False):
     body = list(stmts[:k])
     ins = MODES[mode][0]
     if control:
-        lines = ["import sys"]
+        lines = ["import sys", PRE_IMPORT.get(mode, "")]
         if ins and mode != "autoprove_off":
             lines.append(ins)
         return "\n".join(lines) + "\n"
-    src = PRELUDE + IMPORTS + "\n".join(body) + "\n"
+    src = PRELUDE + PRE_IMPORT.get(mode, "") + IMPORTS + "\n".join(body) + "\n"
     if ins:
         src += ins + "\n"
     if MODES[mode][1] is None or mode == "fall_off":
